@@ -215,6 +215,15 @@ pub fn emit_case(out: &mut dyn Write, group: &str, c: &Case, verbose: bool) -> s
 /// failures are then reported as notes (`KNOWN:<key>`) instead of failures
 pub fn emit_case_known(out: &mut dyn Write, group: &str, c: &Case, verbose: bool, known: Option<&str>) -> std::io::Result<Report> {
     let r = run_case(c);
+    // under exhaustive enumeration the case is reported with the complete sequence of grants, so
+    // that the text replays the same run without the enumeration's fallback rule
+    let c_full;
+    let c = if EXHAUST.load(std::sync::atomic::Ordering::SeqCst) && matches!(c.mode, Mode::Ctl(_)) {
+        c_full = Case { mode: Mode::Ctl(r.granted.clone()), ..c.clone() };
+        &c_full
+    } else {
+        c
+    };
     let ex = expect(c);
     let mut fails: Vec<String> = vec![];
     let mut notes: Vec<String> = vec![];
@@ -848,6 +857,48 @@ pub fn gen_large_case(rng: &mut Rng, terms: &[TermD], kinds_pool: &[&str], canar
     Case { src_kind, input, ops, sets, term, mode: Mode::Free(0), panic_at: None }
 }
 
+/// all interleavings of one tiny configuration at the granularity of the deterministic scheduler
+/// (spawner decision points, worker start, one step per source element): depth-first over the
+/// choice sets recorded by the scheduler, lexicographic order. Returns (#schedules, complete?).
+pub fn exhaust(out: &mut dyn Write, group: &str, base: &Case, limit: usize) -> std::io::Result<(usize, bool)> {
+    use std::sync::atomic::Ordering;
+    EXHAUST.store(true, Ordering::SeqCst);
+    let mut prefix: Vec<u32> = vec![];
+    let mut n = 0usize;
+    let mut complete = false;
+    loop {
+        let mut c = base.clone();
+        c.mode = Mode::Ctl(prefix.clone());
+        emit_case(out, group, &c, false)?;
+        n += 1;
+        let (granted, choices) = LAST_SCHED.lock().unwrap().clone();
+        // deepest position with an untried larger alternative
+        let mut next = None;
+        for i in (0..granted.len().min(choices.len())).rev() {
+            if let Some(a) = choices[i].iter().copied().filter(|a| *a > granted[i]).min() {
+                next = Some((i, a));
+                break;
+            }
+        }
+        match next {
+            None => {
+                complete = true;
+                break;
+            }
+            Some((i, a)) => {
+                prefix = granted[..i].to_vec();
+                prefix.push(a);
+            }
+        }
+        if n >= limit {
+            break;
+        }
+    }
+    EXHAUST.store(false, Ordering::SeqCst);
+    writeln!(out, "EXH\t{}\t{}\t{}\t{}", group, base.enc(), n, complete)?;
+    Ok((n, complete))
+}
+
 pub fn gen_pred(rng: &mut Rng) -> PredD {
     let k = *rng.pick(&[1u64, 2, 3, 5, 7, 11, 50, 1000, 1_000_003]);
     PredD { k, r: rng.below(k.min(13)) }
@@ -1393,6 +1444,76 @@ pub fn run(out: &mut dyn Write, prop: &str, seed: u64, thorough: bool) -> std::i
             writeln!(out, "HARNESS-ERROR\tunknown sweep {}", prop)?;
         }
     }
+    // ---- every interleaving of tiny configurations (scheduler granularity)
+    for (group, c, limit) in exhaust_configs(prop, &mut rng, thorough) {
+        writeln!(out, "BEGIN\t{}", c.enc())?;
+        out.flush()?;
+        let (k, _) = exhaust(out, &group, &c, limit)?;
+        total_c.set(total_c.get() + k);
+    }
     writeln!(out, "STAT\tcases\t{}", total_c.get())?;
     Ok(())
+}
+
+/// the tiny configurations whose interleavings are enumerated completely, per property:
+/// (source kind, threads, chunk size, input length) x (chain, terminal)
+fn exhaust_configs(prop: &str, rng: &mut Rng, thorough: bool) -> Vec<(String, Case, usize)> {
+    let pd = PredD { k: 2, r: 0 };
+    let shapes: Vec<(&str, TermD)> = match prop {
+        "C01" => vec![("M", TermD::CollectVec), ("F", TermD::CollectVec), ("X", TermD::Collect), ("P", TermD::CollectInto('f', vec![], 0)), ("MF", TermD::CollectInto('v', vec![], 2))],
+        "C02" => vec![("M", TermD::Find(pd)), ("F", TermD::First), ("M", TermD::FindIdx(pd)), ("X", TermD::Find(pd)), ("P", TermD::Any(pd)), ("M", TermD::All(PredD { k: 3, r: 1 }))],
+        "C03" => vec![("M", TermD::Reduce(RedD::Add)), ("F", TermD::Reduce(RedD::Xor)), ("X", TermD::Reduce(RedD::Max)), ("P", TermD::Reduce(RedD::Add)), ("M", TermD::MinByKey(2)), ("M", TermD::Fold(RedD::Add, 7))],
+        "C04" => vec![("M", TermD::Count), ("F", TermD::Count), ("X", TermD::Count), ("P", TermD::Count), ("PF", TermD::Count), ("M", TermD::ForEach)],
+        "C05" => vec![("M", TermD::CollectVec), ("F", TermD::Count), ("P", TermD::Reduce(RedD::Add)), ("X", TermD::CollectX), ("M", TermD::Find(pd))],
+        "C06" => vec![("M", TermD::CollectInto('v', vec![7, 8, 9], 0)), ("F", TermD::CollectInto('s', vec![7, 8], 3)), ("X", TermD::CollectInto('f', vec![7], 50)), ("M", TermD::CollectInto('f', vec![7, 8], 50))],
+        "C07" => vec![("F", TermD::CollectX), ("X", TermD::CollectX), ("P", TermD::CollectX), ("MF", TermD::CollectX)],
+        "C08" => vec![("M", TermD::Count), ("F", TermD::CollectVec), ("M", TermD::Reduce(RedD::Add)), ("M", TermD::Find(pd))],
+        "C10" => vec![("M", TermD::Find(pd)), ("F", TermD::First), ("X", TermD::Find(pd)), ("P", TermD::Any(pd))],
+        "C11" => vec![("M", TermD::CollectVec), ("F", TermD::Count), ("X", TermD::Reduce(RedD::Add))],
+        "C13" => vec![("M", TermD::CollectVec), ("F", TermD::CollectVec), ("F", TermD::Collect), ("M", TermD::Find(pd)), ("X", TermD::First), ("F", TermD::CollectX), ("M", TermD::Reduce(RedD::Max))],
+        "C14" => vec![("M", TermD::CollectVec), ("F", TermD::CollectVec), ("F", TermD::Collect), ("M", TermD::Count), ("P", TermD::Reduce(RedD::Add)), ("M", TermD::Find(pd))],
+        _ => return vec![],
+    };
+    // (threads, chunk, len): quick ≈ 120 … 5 000 schedules each
+    let mut cfgs: Vec<(usize, usize, usize)> = vec![(2, 1, 4), (2, 2, 5), (3, 1, 3), (3, 2, 4)];
+    if thorough {
+        cfgs.extend([(3, 1, 4), (3, 1, 5), (3, 2, 6), (4, 1, 3), (4, 2, 4), (2, 1, 7), (2, 3, 8)]);
+    }
+    let canary = matches!(prop, "C13" | "C14");
+    let kinds_src: &[char] = if canary { &['V', 'K', 'U'] } else { &['v', 'k', 'u'] };
+    let mut v = vec![];
+    let mut i = 0usize;
+    for (j, (kinds, term)) in shapes.iter().enumerate() {
+        for (q, (nt, cz, len)) in cfgs.iter().copied().enumerate() {
+            // quick: each shape with two of the four configurations (alternating between the
+            // chunk-size-1 and the chunked code path); thorough: all
+            i += 1;
+            if !thorough && !(q == j % 2 || q == 2 + (j + 1) % 2) {
+                continue;
+            }
+            if (term.needs_concrete() || !is_core_terminal(term)) && kinds.len() > 1 {
+                continue;
+            }
+            let ops: Vec<OpD> = kinds.chars().map(|k| match k {
+                'X' => OpD::FlatMap { k: 2 },
+                'F' => OpD::Filter { k: 2, r: rng.below(2) },
+                k => gen_op(rng, k),
+            }).collect();
+            let input = gen_input(rng, len, true);
+            let mut sets = vec![vec![]; ops.len() + 1];
+            sets[0] = vec![SetD::NtUsize(nt), SetD::CsUsize(cz)];
+            let src_kind = kinds_src[i % kinds_src.len()];
+            let mut c = Case { src_kind, input, ops, sets, term: term.clone(), mode: Mode::Ctl(vec![]), panic_at: None };
+            if prop == "C14" {
+                let ex = expect(&c);
+                let cand: Vec<(u32, u64)> = ex.log.iter().copied().filter(|e| (e.0 as usize) < c.ops.len() || e.0 == ST_PRED).collect();
+                if cand.is_empty() {
+                    continue;
+                }
+                c.panic_at = Some(*rng.pick(&cand));
+            }
+            v.push(("exhaustive".to_string(), c, if thorough { 400_000 } else { 20_000 }));
+        }
+    }
+    v
 }
